@@ -683,7 +683,8 @@ def split_case(draw, tier='quick'):
 
 
 def _demands(draw, pnames):
-    return [[draw(st.sampled_from([0.001, 0.002, 0.0005, 0.004, 0.0])), draw(st.sampled_from([None] + pnames)),
+    # negative entries are inflows (a well modelled as negative demand); they are demand like any other
+    return [[draw(st.sampled_from([0.001, 0.002, 0.0005, 0.004, 0.0, -0.001, -0.0005])), draw(st.sampled_from([None] + pnames)),
              draw(st.sampled_from([None, 'dom', 'ind']))] for _ in range(draw(st.sampled_from([1, 1, 2])))]
 
 
